@@ -253,6 +253,11 @@ def jobs(tier):
                 if q and (mi + (sort == "llf") + (est is None)) % 2:
                     continue
                 add("rr[mix%d,%s,est=%s,unint=%d,inc=%s]" % (mi, sort, est, unint, inc), stations=st, rows=rows, sessions=SESS2, algo="rr", sort=sort, estimator=est, uninterrupted=unint, inc=inc, limit_hi=lh)
+    # an increment whose multiples need more decimals than the increment's own order of magnitude (0.025 -> 0.075)
+    st_, rows_, lh_ = mixes2[0]
+    add("rr[mix0,fcfs,inc=0.025]", stations=st_, rows=rows_, sessions=SESS2, algo="rr", sort="fcfs", estimator=None, uninterrupted=False, inc=0.025, limit_hi=lh_)
+    if not q:
+        add("rr[mix1,edf,inc=0.0125]", stations=mixes2[1][0], rows=mixes2[1][1], sessions=SESS2, algo="rr", sort="edf", estimator="rampdown", uninterrupted=True, inc=0.0125, limit_hi=mixes2[1][2])
     # --- three stations, three-phase, mixed-sign constraints; one station vacated / one session finished
     tri = [("C0.08", 208, 30), ("CC", 208, -90), ("AV5", 208, 150)]
     rows3 = [(1, 0, -1), (-1, 1, 0)]
